@@ -70,6 +70,19 @@ def main():
             nsp = hs.mesh(l).numspans
             cells = [c for c in act[l] if all(c[d] >= nsp[d] // 2 for d in range(dim))]
             return [[l, [list(c) for c in (cells or act[l][:1])]]]
+        if kind == 'deepen':
+            # all active cells of the finest level that has any (the children of what was refined last): with high
+            # degree no function of the intermediate levels fits into the refined region -> EMPTY intermediate levels
+            l = max(lvls)
+            if len(act[l]) <= op.get('cap', 16):
+                return [[l, [list(c) for c in act[l]]]]
+            return []
+        if kind == 'interior':
+            # one interior cell of the coarsest level
+            l = min(lvls)
+            nsp = hs.mesh(l).numspans
+            inner = [c for c in act[l] if all(0 < c[d] < nsp[d] - 1 for d in range(dim))] or act[l]
+            return [[l, [list(rng.choice(inner))]]]
         if kind == 'isolated':
             l = rng.choice(lvls)
             return [[l, [list(rng.choice(act[l]))]]]
@@ -184,14 +197,80 @@ def main():
             res['cell_supp_error'] = err(e)
         forms = []
         res['forms'] = forms
+        orig = _hdiscr.HDiscretization._assemble_level
+
+        def run_recorded(fun):
+            """Run fun() while recording the (k, rows, bbox, result) of every _assemble_level call."""
+            calls = []
+
+            def wrapped(self, k, rows=None, bbox=None, symmetric=False):
+                A = orig(self, k, rows=rows, bbox=bbox, symmetric=symmetric)
+                calls.append((k, None if rows is None else [int(r) for r in rows],
+                              None if bbox is None else [[int(a), int(b)] for a, b in bbox], A))
+                return A
+            _hdiscr.HDiscretization._assemble_level = wrapped
+            try:
+                return fun(), calls
+            finally:
+                _hdiscr.HDiscretization._assemble_level = orig
+
+        def setup_form(fs):
+            args = {'geo': make_geo(fs['geo'], dim)}
+            for nm, spec in fs.get('fields', {}).items():
+                args[nm] = make_field(spec, dim)
+            if fs.get('kind') == 'assemble_rhs':
+                # the default right-hand side <f, v> with f given in PHYSICAL coordinates (an affine function)
+                cf = [float(x) for x in fs['fphys']]
+                args['f'] = lambda *X, _c=cf: _c[0] + sum(ci * Xi for ci, Xi in zip(_c[1:], X))
+                vf = vform.L2functional_vf(dim=dim, physical=True)
+            else:
+                vf = vform.parse_vf(fs['expr'], kvs, args=args)
+            return vf, args
+
+        prepared = []
         for fs in case['forms']:
+            try:
+                prepared.append(setup_form(fs))
+            except Exception as e:   # noqa
+                prepared.append(err(e))
+        # sessions: all forms with entry == 'session' are assembled on ONE HDiscretization object per basis
+        # (HB object: listed order, THB object: reverse order); every result must be that of a fresh object
+        session = {}
+        sess = [i for i, fs in enumerate(case['forms']) if fs.get('entry') == 'session' and not isinstance(prepared[i], str)]
+        if sess:
+            merged = {}
+            for i in sess:
+                merged.update(prepared[i][1])
+            bil = [i for i in sess if prepared[i][0].arity == 2][:1]
+            for trunc in (False, True):
+                hs.truncate = trunc
+                try:
+                    hd = hierarchical.HDiscretization(hs, prepared[bil[0]][0] if bil else None, merged)
+                except Exception as e:   # noqa
+                    for i in sess:
+                        session[(i, trunc)] = ('error', err(e))
+                    continue
+                for i in (sess if not trunc else sess[::-1]):
+                    vf_i = prepared[i][0]
+                    try:
+                        if vf_i.arity == 2:
+                            if i not in bil:
+                                continue
+                            session[(i, trunc)] = ('matrix',) + run_recorded(lambda: hd.assemble_matrix(symmetric=False))
+                        elif case['forms'][i].get('kind') == 'assemble_rhs':
+                            session[(i, trunc)] = ('vector', hd.assemble_rhs())
+                        else:
+                            session[(i, trunc)] = ('vector', hd.assemble_functional(vf_i))
+                    except Exception as e:   # noqa
+                        session[(i, trunc)] = ('error', err(e))
+            hs.truncate = cfg['truncate']
+        for ifs, fs in enumerate(case['forms']):
             fr = {'name': fs['name']}
             forms.append(fr)
             try:
-                args = {'geo': make_geo(fs['geo'], dim)}
-                for nm, spec in fs.get('fields', {}).items():
-                    args[nm] = make_field(spec, dim)
-                vf = vform.parse_vf(fs['expr'], kvs, args=args)
+                if isinstance(prepared[ifs], str):
+                    raise RuntimeError(prepared[ifs])
+                vf, args = prepared[ifs]
                 fr['arity'] = int(vf.arity)
                 used = {inp.name: args[inp.name] for inp in vf.inputs}
                 cls = pcompile.compile_vform(vf, on_demand=True)
@@ -212,32 +291,24 @@ def main():
             except Exception as e:   # noqa
                 fr['setup_error'] = err(e)
                 continue
-            # record the calls HDiscretization makes
-            calls = []
-            orig = _hdiscr.HDiscretization._assemble_level
-
-            def wrapped(self, k, rows=None, bbox=None, symmetric=False, _orig=orig, _calls=calls):
-                A = _orig(self, k, rows=rows, bbox=bbox, symmetric=symmetric)
-                _calls.append((k, None if rows is None else [int(r) for r in rows],
-                               None if bbox is None else [[int(a), int(b)] for a, b in bbox], A))
-                return A
             out = {}
             fr['out'] = out
+            entry = fs.get('entry', 'assemble')
             for trunc in (False, True):
                 hs.truncate = trunc
                 key = 'thb' if trunc else 'hb'
                 try:
                     if vf.arity == 2:
                         for symm in ([False, True] if fs.get('symmetric') else [False]):
-                            del calls[:]
-                            _hdiscr.HDiscretization._assemble_level = wrapped
-                            try:
-                                if fs.get('entry', 'assemble') == 'assemble':
-                                    A = assemble.assemble(vf, hs, symmetric=symm, **args)
-                                else:
-                                    A = hierarchical.HDiscretization(hs, vf, args).assemble_matrix(symmetric=symm)
-                            finally:
-                                _hdiscr.HDiscretization._assemble_level = orig
+                            sres = session.get((ifs, trunc)) if not symm else None
+                            if sres is not None:
+                                if sres[0] == 'error':
+                                    raise RuntimeError('in session: ' + sres[1])
+                                A, calls = sres[1], sres[2]
+                            elif entry == 'assemble':
+                                A, calls = run_recorded(lambda: assemble.assemble(vf, hs, symmetric=symm, **args))
+                            else:
+                                A, calls = run_recorded(lambda: hierarchical.HDiscretization(hs, vf, args).assemble_matrix(symmetric=symm))
                             out[key + ('_sym' if symm else '')] = {'shape': [int(s) for s in A.shape], 'rows': sparse_rows(A)}
                             if not trunc and not symm:
                                 fr['calls'] = [[k, rows, bbox] for (k, rows, bbox, _A) in calls]
@@ -263,7 +334,14 @@ def main():
                                     fr['lev'] = [sparse_rows(A_) for A_ in lev]
                                     fr['lev_rows_substituted'] = True
                     else:
-                        if fs.get('entry', 'assemble') == 'assemble':
+                        sres = session.get((ifs, trunc))
+                        if sres is not None:
+                            if sres[0] == 'error':
+                                raise RuntimeError('in session: ' + sres[1])
+                            b = sres[1]
+                        elif fs.get('kind') == 'assemble_rhs':
+                            b = hierarchical.HDiscretization(hs, None, args).assemble_rhs()
+                        elif entry == 'assemble':
                             b = assemble.assemble(vf, hs, **args)
                         else:
                             b = hierarchical.HDiscretization(hs, None, args).assemble_functional(vf)
